@@ -159,6 +159,19 @@ func (env *specEnv) eval(e *SExpr) sval {
 	case "lt", "le", "gt", "ge":
 		l, r := env.eval(e.Args[0]), env.eval(e.Args[1])
 		if l.t.Sort != smt.Int || r.t.Sort != smt.Int {
+			if l.t.Sort == StrSort && r.t.Sort == StrSort {
+				// Go string comparison: the uninterpreted strict order str_lt (as in code)
+				fv.c.DeclareFun("str_lt", []string{StrSort, StrSort}, smt.Bool)
+				switch e.Op {
+				case "lt":
+					return boolVal(smt.App(smt.Bool, "str_lt", l.t, r.t))
+				case "gt":
+					return boolVal(smt.App(smt.Bool, "str_lt", r.t, l.t))
+				case "le":
+					return boolVal(smt.Not(smt.App(smt.Bool, "str_lt", r.t, l.t)))
+				}
+				return boolVal(smt.Not(smt.App(smt.Bool, "str_lt", l.t, r.t)))
+			}
 			if l.t.Sort == "Real" || r.t.Sort == "Real" {
 				op := map[string]string{"lt": "<", "le": "<=", "gt": ">", "ge": ">="}[e.Op]
 				return boolVal(smt.App(smt.Bool, op, l.t, r.t))
@@ -252,10 +265,18 @@ func (env *specEnv) eval(e *SExpr) sval {
 			}
 		}
 		body := inner.evalBool(e.Args[0])
-		if e.Op == "forall" {
-			return boolVal(smt.Forall(vars, smt.Implies(guard, body)))
+		var pats []smt.Term
+		for _, grp := range e.Pats {
+			var parts []string
+			for _, pe := range grp {
+				parts = append(parts, inner.eval(pe).t.S)
+			}
+			pats = append(pats, smt.Term{S: strings.Join(parts, " "), Sort: smt.Bool})
 		}
-		return boolVal(smt.Exists(vars, smt.And(guard, body)))
+		if e.Op == "forall" {
+			return boolVal(smt.Forall(vars, smt.Implies(guard, body), pats...))
+		}
+		return boolVal(smt.Exists(vars, smt.And(guard, body), pats...))
 	case "call":
 		return env.evalCall(e)
 	case "slice":
@@ -547,6 +568,23 @@ func (env *specEnv) evalCall(e *SExpr) sval {
 		n := *env
 		n.cur = fv.lockSnaps[nv.Int64()-1]
 		return n.eval(args[1])
+	case "unlockedN":
+		// unlockedN(n, e): e in the state right before the n-th release of an owned mutex (program order, 1-based)
+		nv, ok := smt.IntVal(env.eval(args[0]).t)
+		if !ok || nv.Sign() <= 0 || int(nv.Int64()) > len(fv.unlockSnaps) {
+			env.fail(e, "unlockedN: no such release (have %d)", len(fv.unlockSnaps))
+		}
+		n := *env
+		n.cur = fv.unlockSnaps[nv.Int64()-1]
+		return n.eval(args[1])
+	case "allocated":
+		// allocated(p): reference within the current allocation frontier (exists in the described state)
+		v := env.eval(args[0])
+		t := v.t
+		if v.t.Sort == SliceSort {
+			t = slArr(v.t)
+		}
+		return boolVal(smt.And(smt.Ge(t, smt.IntLit(0)), smt.Le(t, env.cur.frontier)))
 	case "iter":
 		// state at the head of the innermost enclosing loop iteration (heap and
 		// ghost reads only; local variables keep their current values)
@@ -733,6 +771,24 @@ func (env *specEnv) evalCall(e *SExpr) sval {
 		if len(args) != len(pf.Params) {
 			env.fail(e, "pure %s expects %d args", name, len(pf.Params))
 		}
+		if pf.Uninterp {
+			// ghost func: an uninterpreted function symbol over the argument sorts
+			fname := "ghost_" + smt.Sanitize(pf.Pkg) + "_" + pf.Name
+			retSort, retTy := env.sortOfName(pf.Ret)
+			var sorts []string
+			var as []smt.Term
+			for i, p := range pf.Params {
+				so, _ := env.sortOfName(p.Type)
+				av := env.eval(args[i])
+				if av.t.Sort != so {
+					env.fail(e, "ghost %s: argument %d has sort %s, want %s", name, i, av.t.Sort, so)
+				}
+				sorts = append(sorts, so)
+				as = append(as, av.t)
+			}
+			fv.c.DeclareFun(fname, sorts, retSort)
+			return sval{smt.App(retSort, fname, as...), retTy}
+		}
 		if pf.Rec {
 			return env.callRecPure(pf, args)
 		}
@@ -886,6 +942,79 @@ func (fv *funcVerifier) ownEnv(cur *State) *specEnv {
 	return env
 }
 
+// checkLemmas proves the "lemma" clauses of the function's contract block in the entry
+// state, before the requires are assumed: a lemma is a closed first-order fact about the
+// spec functions (it may quantify over slices, whose elements are read from the entry heap).
+// Lemmas are not assumed afterwards.
+func (fv *funcVerifier) checkLemmas(st *State) {
+	if fv.spec == nil {
+		return
+	}
+	env := fv.ownEnv(st)
+	for _, l := range fv.spec.Lemmas {
+		fv.assertNoAssume(st, "lemma", l.Name, fv.fi.Decl.Pos(), env.evalBool(l.E))
+	}
+}
+
+// callSiteSpec applies the assumed contract of an external call site, if one is declared
+// ("callsite Func callee#n").
+func (fv *funcVerifier) callSiteSpec(st *State, call *ast.CallExpr, fn *types.Func) ([]smt.Term, bool) {
+	if len(fv.prog.Specs.CallSites) == 0 {
+		return nil, false
+	}
+	full := fn.FullName()
+	if fv.callOrd == nil {
+		fv.callOrd = map[string]int{}
+	}
+	fv.callOrd[full]++
+	key := fmt.Sprintf("%s:%s#%d", fv.fi.Key, full, fv.callOrd[full])
+	sp := fv.prog.Specs.CallSites[key]
+	if sp == nil {
+		return nil, false
+	}
+	sig := fn.Type().(*types.Signature)
+	if sig.Recv() != nil {
+		fv.evalRecv(st, call, fn)
+	}
+	fv.evalArgs(st, call, sig)
+	pre := st.clone()
+	envPre := fv.loopEnv(pre)
+	envPre.old = pre
+	for _, r := range sp.Requires {
+		fv.assert(st, "requires", key+":"+r.String(), call.Pos(), envPre.evalBool(r))
+	}
+	fv.mut++
+	for _, m := range sp.Modifies {
+		if m.Op == "call" && m.Args[0].Op == "ident" && m.Args[0].Name == "elems" && len(m.Args) == 2 {
+			v := envPre.eval(m.Args[1])
+			sl, ok := v.typ.Underlying().(*types.Slice)
+			if !ok {
+				envPre.fail(m, "elems of non-slice")
+			}
+			k := fv.memKey(sl.Elem())
+			h := fv.heapGet(st, k)
+			fv.heapSet(st, k, smt.Store(h, slArr(v.t), fv.c.Fresh("hv", smt.ElemSort(h.Sort))))
+			continue
+		}
+		envPre.fail(m, "callsite modifies target must be elems(s)")
+	}
+	nf := fv.c.Fresh("frontier", smt.Int)
+	fv.assume(st, smt.Ge(nf, st.frontier))
+	st.frontier = nf
+	post := fv.loopEnv(st)
+	post.old = pre
+	results := fv.freshResults(st, call, fn.Name())
+	names := resultNames(sig)
+	for i, r := range results {
+		post.vars[names[i]] = sval{r, sig.Results().At(i).Type()}
+	}
+	for _, e := range sp.Ensures {
+		fv.assume(st, post.evalBool(e))
+	}
+	fv.note("external call %s: assumed call-site contract %s", full, key)
+	return results, true
+}
+
 func (fv *funcVerifier) assumeRequires(st *State) {
 	if fv.spec == nil {
 		return
@@ -948,9 +1077,48 @@ func (fv *funcVerifier) finishExits() {
 		env.vars[names[i]] = sval{t, rv.Type()}
 	}
 	fv.applyGhostExit(exit, env, fv.spec)
-	for _, e := range fv.spec.Ensures {
-		fv.assert(exit, "ensures", e.String(), fv.fi.Decl.End(), env.evalBool(e))
+	if fv.spec.PerExit && len(fv.exits) > 1 && len(fv.spec.GhostExit) == 0 {
+		// one obligation per return statement, with the assumptions of that path only: the
+		// terms stay those of the path (no ite-merged heaps, which defeat quantifier triggers)
+		for k, ex := range fv.exits {
+			if ex.dead() {
+				continue
+			}
+			envk := fv.ownEnv(ex)
+			for v, t := range ex.vars {
+				if v.Name() == "" || v.Name() == "_" || fv.isParam(v) || fv.boxed[v] || fv.volatile[v] {
+					continue
+				}
+				if _, inAll := exit.vars[v]; !inAll {
+					continue
+				}
+				if _, taken := envk.vars[v.Name()]; !taken {
+					envk.vars[v.Name()] = sval{t, v.Type()}
+				}
+			}
+			for i, rv := range fv.results {
+				var t smt.Term
+				if fv.boxed[rv] {
+					t = fv.loadAt(ex, ex.vars[rv], rv.Type())
+				} else {
+					t = ex.vars[rv]
+				}
+				envk.vars[names[i]] = sval{t, rv.Type()}
+			}
+			start := len(fv.assumptions)
+			for _, e := range fv.spec.Ensures {
+				o := fv.assert(ex, "ensures", fmt.Sprintf("%s@return%d", e.String(), k+1), fv.fi.Decl.End(), envk.evalBool(e))
+				if o != nil && k < len(fv.exitAssume) && fv.exitAssume[k] < start {
+					o.skipFrom, o.skipTo = fv.exitAssume[k], start
+				}
+			}
+		}
+	} else {
+		for _, e := range fv.spec.Ensures {
+			fv.assert(exit, "ensures", e.String(), fv.fi.Decl.End(), env.evalBool(e))
+		}
 	}
+
 	if fv.spec.Modifies != nil && !fv.spec.ModAll {
 		fv.checkFrame(exit, env)
 	}
@@ -1266,7 +1434,8 @@ func (fv *funcVerifier) checkFrame(exit *State, env *specEnv) {
 				allowed = smt.Or(allowed, smt.Eq(r, rk.ref))
 			}
 		}
-		goal := smt.Forall([]smt.Term{r}, smt.Implies(smt.And(smt.Ge(r, smt.IntLit(0)), smt.Le(r, fv.entry.frontier), smt.Not(allowed)),
+		// reference 0 is nil: it has no contents (a model may "forget" the referent of a nil slice/map)
+		goal := smt.Forall([]smt.Term{r}, smt.Implies(smt.And(smt.Ge(r, smt.IntLit(1)), smt.Le(r, fv.entry.frontier), smt.Not(allowed)),
 			smt.Eq(smt.Select(now, r), smt.Select(was, r))))
 		fv.assert(exit, "frame", k, fv.fi.Decl.End(), goal)
 	}
@@ -1430,6 +1599,11 @@ func (fv *funcVerifier) callWithSpecSig(st *State, call *ast.CallExpr, sig *type
 	}
 	fv.applyGhostExit(st, &post, sp)
 	for _, e := range sp.Ensures {
+		if src := e.String(); strings.Contains(src, "unlockedN(") {
+			// clauses about the callee's individual critical sections mean nothing to a caller:
+			// not assumed (assuming less is sound)
+			continue
+		}
 		fv.assume(st, post.evalBool(e))
 	}
 	// "sets" right-hand sides read the CALLER's ghost variables (callee-private ghosts of the same name are hidden)
@@ -1467,7 +1641,17 @@ func (fv *funcVerifier) callIfaceSpec(st *State, call *ast.CallExpr, im *types.F
 	if sp == nil {
 		return nil, false
 	}
-	return fv.callWithSpec(st, call, im, sp, recv, true, args), true
+	// the receiver of an interface contract is "self"; parameters are named by the contract header
+	// (falling back to the names in the interface declaration)
+	var names []string
+	for i := 0; i < sig.Params().Len(); i++ {
+		nm := sig.Params().At(i).Name()
+		if i < len(sp.Params) && sp.Params[i] != "" {
+			nm = sp.Params[i]
+		}
+		names = append(names, nm)
+	}
+	return fv.callWithSpecSig(st, call, sig, names, key, im.Name(), n.Obj().Pkg(), sp, recv, "self", rt, args), true
 }
 
 // callFuncValueSpec handles x.f(args) where f is a function-typed field with a
@@ -1619,6 +1803,7 @@ func (fv *funcVerifier) lockSpecOp(st *State, mu ast.Expr, acquire bool, call *a
 			fv.assert(st, "lockinv", n.Obj().Name()+"."+inv.Name+"@unlock", call.Pos(), env.evalInv(self, inv.E))
 		}
 	}
+	fv.unlockSnaps = append(fv.unlockSnaps, st.clone())
 	return true
 }
 
